@@ -180,6 +180,11 @@ def run(prog: Program, rep: Report, tier: str):
     rule_mask(prog, rep, classes)
     rule_deriv(prog, rep, classes)
     rule_samebin(prog, rep)
+    from .bnaf import rule_bnaf_logdet
+    rule_bnaf_logdet(prog, rep)
+    # sum of the transformer log-dets is log|det J| only for a triangular Jacobian: the last MADE layer is strict
+    from .c09 import rule_made_masks
+    rule_made_masks(prog, rep, R="C02.triangular")
     if tier == "thorough":
         from ..audit import audit_generic
         audit_generic(prog, rep, "C02")
@@ -368,6 +373,15 @@ def rule_mask(prog, rep, classes):
                 continue
             site = method_site(prog, c, m)
             inner = [s for s in walk(l) if _where_parts(s) and any(z == X for z in walk(_where_parts(s)[0]))]
+            if (same(wp[1], X) or same(wp[2], X)) and not inner:
+                # the value is the raw input on one side of the mask (identity tail): its log-det there is 0, so
+                # the log-det has to select on the input as well; one that never tests the input is the in-mask
+                # formula evaluated at a sanitised (clipped) point - the boundary slope, not 1
+                rep.violated("C02.mask", site, f"{c.qualname}.{m}:logdet-has-identity-branch",
+                             f"the value is where({show(mask, 100)}, ., input) - the identity off the mask - but the "
+                             f"log-det {show(l, 160)} never selects on the input: outside the mask it reports the "
+                             f"formula's value at a sanitised point instead of 0")
+                continue
             # only predicates on the raw input (not on a computed inverse) are compared
             cands = [s for s in inner if _mentions_only_input(_where_parts(s)[0])]
             for s in cands:
